@@ -830,6 +830,11 @@ def run(ctx: Ctx, rep: Report, tier: str) -> None:
     dicts_rebuilt_whole(ctx, rep)
     blocks_keep_identity(ctx, rep)
     exporter_reads_own_settings(ctx, rep)
+    # R16.21 premise: the exported line is read back by the grammar it was written for - every address spelling whole, the
+    # largest sequence number included (C01 R01.16)
+    from .c01 import address_spellings_whole
+
+    address_spellings_whole(ctx, rep, rid="R16.21")
     # R16.17 the list operations of a container work on the list in place (C15 R15.10): an operation that goes through the
     # items setter re-groups a grouped ACL and so replaces its blocks
     from .c15 import list_api_forwarding, r15_4
